@@ -32,6 +32,7 @@ Oracle (independent reading of the property over what the implementation did; ow
 from common import compare, load_corpus, HarnessError
 import c11_util
 from c11_util import rfc_parse_option, rfc_build_option, rfc_parse_datagram
+import c11_fs
 
 RULE = ("Scenarios = (algorithm/nonce length, client and server sender-ID lengths 0..7, ID "
         "context, master secret/salt, sender sequence numbers around every Partial-IV length "
@@ -1355,6 +1356,92 @@ def rfc_vectors(k, env, rep):
                     rep.oracle_fail(case, v, key=f"rfc8613:{name}:rid")
 
 
+# --------------------------------------------------------------------------- lives of a process (persisted context)
+
+PERSIST_STEPS = 75          # beyond the 4th persistence step of the default chunks (1, 11, 31, 71)
+
+
+def history_table(gen, rng, env):
+    """crash histories on the real FilesystemSecurityContext: the process is killed (K) or stopped (S) after EVERY
+    count k of protect operations of a life, k = 0 .. beyond the third (in fact fourth) persistence step, in the
+    first and in the second life, then protects again"""
+    def ids():
+        ls, lr = rng.randint(0, 7), rng.randint(0, 7)
+        if ls == 0 and lr == 0:
+            lr = 1
+        a, b = gen.ids(ls, lr)
+        return {"sid": hx(a), "rid": hx(b), "secret": hx(bytes(rng.randrange(256) for _ in range(16))),
+                "salt": hx(bytes(rng.randrange(256) for _ in range(rng.choice([0, 8])))),
+                "idctx": None if rng.random() < 0.6 else hx(bytes(rng.randrange(256) for _ in range(rng.choice([0, 1, 8]))))}
+
+    def hist(events, start=None, limit=None, disk=None):
+        h = ids()
+        h.update({"start": start, "limit": limit, "disk": disk, "events": list(events)})
+        return h
+
+    hs = []
+    second = [0, 1, 2, 9, 10, 11, 12, 29, 30, 31, 32, 33]
+    full = env.tier != "quick"
+    # A: kill after k1 protects of the first life (every k1), after k2 of the second, then go on
+    for k1 in range(PERSIST_STEPS + 1):
+        for k2 in (range(36) if full else [second[k1 % len(second)], second[(5 * k1 + 3) % len(second)]]):
+            hs.append(hist(["q"] * k1 + ["K"] + ["q"] * k2 + ["K"] + ["q"] * 2 + ["S", "q"]))
+    # B: every k2 of the second life after a first life that ended right after its 1st / 11th / 12th protect
+    for k1 in (1, 11, 12):
+        for k2 in range(36):
+            hs.append(hist(["q"] * k1 + ["K"] + ["q"] * k2 + ["K", "q", "q"]))
+    # C: an orderly stop first (exact number on disk), kills later; and the other way round
+    for k1 in (0, 1, 5, 10, 11, 31):
+        for k2 in (0, 1, 2, 10, 11, 12, 31):
+            hs.append(hist(["q"] * k1 + ["S"] + ["q"] * k2 + ["K", "q", "q", "K", "q"]))
+            hs.append(hist(["q"] * k1 + ["K"] + ["q"] * k2 + ["S", "q", "K", "q", "q"]))
+    # D: other chunk configurations (the persistence steps move): every k1 up to beyond the third step
+    for start, limit in ((1, 1), (1, 4), (2, 3), (3, 100), (16, 16), (10, 10)):
+        for k1 in range(0, 3 * max(start, 2) + 8):
+            hs.append(hist(["q"] * k1 + ["K"] + ["q"] * (k1 % 3) + ["K", "q", "q"], start=start, limit=limit))
+    # E: a context that has been in use: numbers around the Partial-IV length boundaries and the last number
+    for disk in (250, 65530, (1 << 24) - 5, (1 << 32) - 3, (1 << 40) - 12, (1 << 40) - 2):
+        for k1 in (0, 1, 6, 11):
+            for k2 in (0, 1):
+                hs.append(hist(["q"] * k1 + ["K"] + ["q"] * k2 + ["K", "q", "q", "q"], disk=disk))
+    # F: random histories, requests of the peer answered in between (notifications / Echo challenges take numbers too)
+    for _ in range(env.scale(40, 800)):
+        evs = []
+        for _life in range(rng.randint(2, 4)):
+            evs += [rng.choice("qqqn") for _ in range(rng.choice([0, 1, 2, 3, 9, 10, 11, 12, 13, 30, 31, 32, rng.randrange(40)]))]
+            evs.append(rng.choice("KKKS"))
+        evs += [rng.choice("qn") for _ in range(rng.randint(1, 3))]
+        cfg = rng.choice([(None, None), (None, None), (1, 2), (4, 16), (7, 7)])
+        hs.append(hist(evs, start=cfg[0], limit=cfg[1],
+                       disk=rng.choice([None, None, 0, 9, 10, 255, 65535, rng.randrange(1 << 30)])))
+    return hs
+
+
+def play_history(runner, h, sink):
+    """one history on the real FilesystemSecurityContext: tokens against the Lean `sendRun`, and the oracle: no
+    Partial IV / (key, nonce) pair twice over all lives, every genuine message accepted by the peer"""
+    tokens, verdict = runner.run(h)
+    sink.add({"hist": h}, c11_fs.driver_line(h), " ".join(tokens), verdict, "hiding:nonce-reuse-across-lives",
+             nontrivial=True, tag="step:crash-history")
+    if sink.rep is not None:
+        kills = [i for i, e in enumerate(h["events"]) if e in "KS"]
+        first = kills[0] if kills else len(h["events"])
+        sink.rep.count("history:first-life-protects=%s" % (first if first <= 12 or first in (29, 30, 31, 32, 70, 71, 72)
+                                                          else "other"))
+        sink.rep.count("history:lives=%d" % (len(kills) + 1))
+    return verdict
+
+
+def crash_histories(k, env, rep, gen, sink):
+    runner = c11_fs.FsRunner(k)
+    for fn, c in load_corpus("C11"):
+        if "hist" in c:
+            play_history(runner, c["hist"], sink)
+            rep.count("corpus")
+    for h in history_table(gen, env.rng, env):
+        play_history(runner, h, sink)
+
+
 # --------------------------------------------------------------------------- entry points
 
 def boundary_scenarios(gen, rng):
@@ -1458,10 +1545,13 @@ def run(env, rep):
             sink.cases, sink.lines, sink.impl = [], [], []
     peer_last_number(k, gen, sink)
     compare(env, rep, sink.cases, sink.lines, sink.impl, what="protect/unprotect")
+    sink.cases, sink.lines, sink.impl = [], [], []
+    crash_histories(k, env, rep, gen, sink)
+    compare(env, rep, sink.cases, sink.lines, sink.impl, what="lives of a persisted context")
     for need in ("step:unprotect-request", "step:unprotect-response", "step:session-forgeries",
                  "step:crash-challenge", "step:crash-second-life", "manip:optbit:must-fail",
                  "manip:paybit:must-fail", "manip:rid:must-fail", "manip:key:must-fail",
-                 "manip:optset:representation"):
+                 "manip:optset:representation", "step:crash-history"):
         if not rep.hist.get(need):
             if rep.oracle_failures or rep.disagreements:
                 # the implementation under test broke the exchanges themselves; that is reported
@@ -1486,6 +1576,8 @@ def replay(env, case):
         return r.oracle_failures[0]["verdict"] if r.oracle_failures else ""
     if "z" in case:
         return judge_z(oscore, unhx(case["z"]))[1]
+    if "hist" in case:
+        return c11_fs.FsRunner(k).run(case["hist"])[1]
     scn = case["scn"]
     sink = Sink(None)
     if "session" in case:
